@@ -14,8 +14,8 @@ DT = 0.125
 
 OPS = {'po': {'eqs': ["d/dt * x = -k*x + u"], 'vars': {'x': 'output(0.5)', 'k': 1.0, 'u': 'input(0.0)'}},
        'qo': {'eqs': ["d/dt * z = -g*z + w"], 'vars': {'z': 'output(0.3)', 'g': 2.0, 'w': 'input(0.0)'}},
-       'co': {'eqs': ["cout = x_pre*(1 - 0.5*x_post)"],
-              'vars': {'cout': 'output(0.0)', 'x_pre': 'input(0.0)', 'x_post': 'input(0.0)'}},
+       'co': {'eqs': ["cout = gc*x_pre*(1 - 0.5*x_post)"],
+              'vars': {'cout': 'output(0.0)', 'x_pre': 'input(0.0)', 'x_post': 'input(0.0)', 'gc': 1.0}},
        'lo': {'eqs': ["d/dt * s = (r_pre - s)/tau", "sout = s"],
               'vars': {'s': 'variable(0.0)', 'sout': 'output(0.0)', 'r_pre': 'input(0.0)', 'tau': 0.5}}}
 POPOP = {'e': ('po', 'x', 'u', 'k'), 'i': ('qo', 'z', 'w', 'g'), 'f': ('po', 'x', 'u', 'k')}
@@ -89,15 +89,24 @@ def cases(tier, seed):
             add({'e': n}, [{'src': 'e', 'tgt': 'e', 'W': W, 'edge': 'dyn'}], f'dyn{n}')
     # delays with and without spread
     for W in list(mats(2, 2, full=False))[1:(6 if tier == 'quick' else 30)]:
-        for d, s in ((2 * DT, None), (3 * DT, None), (1.0, 0.5), (1.0, 0.7)):
+        for d, s in ((2 * DT, None), (3 * DT, None), (2.6 * DT, None), (3.5 * DT, None), (1.4 * DT, None), (1.0, 0.5), (1.0, 0.7)):
             add({'e': 2}, [{'src': 'e', 'tgt': 'e', 'W': W, 'delay': d, 'spread': s}], 'delay' if s is None else 'gamma')
     # two connections that leave the same source variable with different delays (each needs its own buffer)
-    for d1, d2 in ((2 * DT, 3 * DT), (3 * DT, None), (2 * DT, 2 * DT)):
+    for d1, d2 in ((2 * DT, 3 * DT), (3 * DT, None), (2 * DT, 2 * DT), (2.6 * DT, 3.5 * DT)):
         for W in list(mats(2, 2, full=False))[3:7]:
             c2 = {'src': 'e', 'tgt': 'i', 'W': [[1.5, -0.5], [0.25, 2.0]]}
             if d2:
                 c2['delay'] = d2
             add({'e': 2, 'i': 2}, [{'src': 'e', 'tgt': 'e', 'W': W, 'delay': d1}, c2], 'two_delays_one_source')
+    # two connections whose coupling edges have the same equations but their own constants / initial values
+    for W in list(mats(2, 2, full=False))[3:(7 if tier == 'quick' else 20)]:
+        Wb = [[1.5, -0.5], [0.25, 2.0]]
+        for kind, v1, v2 in (('alg', {}, {'gc': 2.5}), ('alg', {'gc': 0.5}, {'gc': 2.5}),
+                             ('dyn', {}, {'tau': 0.2, 's': 0.3}), ('dyn', {'tau': 0.25, 's': -0.1}, {'tau': 1.0, 's': 0.2})):
+            add({'e': 2, 'i': 2}, [{'src': 'e', 'tgt': 'e', 'W': W, 'edge': kind, 'edge_vals': v1},
+                                   {'src': 'i', 'tgt': 'e', 'W': Wb, 'edge': kind, 'edge_vals': v2}], f'two_{kind}_edges')
+            add({'e': 2, 'i': 2}, [{'src': 'i', 'tgt': 'e', 'W': Wb, 'edge': kind, 'edge_vals': v2},
+                                   {'src': 'e', 'tgt': 'i', 'W': W, 'edge': kind, 'edge_vals': v1}], f'two_{kind}_edges')
     for s1, s2 in ((0.5, 0.7), (0.5, None)):
         c2 = {'src': 'e', 'tgt': 'i', 'W': [[1.5, -0.5], [0.25, 2.0]], 'delay': 1.0}
         if s2:
@@ -111,7 +120,8 @@ def describe(tier, seed):
     return {'rule': 'PopulationTemplate(n) x Connectivity circuits: n in 1..3 (4), one or two populations, every weight matrix '
                     'over {0, a, -b} for <=2x2 and all matrices with <=3 non-zeros otherwise (non-square, signed, sparse), '
                     'scalar weights, heterogeneous per-unit parameters and initial states (all distinct), algebraic and '
-                    'dynamic coupling edges, delays with/without spread; oracle: unit-by-unit reference expansion '
+                    'dynamic coupling edges (also two connections whose edges share the equations but not the values), delays '
+                    'with/without spread (whole and fractional multiples of the step); oracle: unit-by-unit reference expansion '
                     'target_i += sum_j W[i,j]*source_j (vector field at probe points + euler trajectories) and, for plain '
                     'weights, the circuit of n separately declared nodes built with add_edges_from_matrix',
             'bounds': {'n': 3 if tier == 'quick' else 4}}
@@ -124,8 +134,8 @@ def reference(case):
         pp = pop_params(pop, n)
         for j in range(n):
             nodes[f'{pop}_{j}'] = [(op, {kv: pp[f'{op}/{kv}'][j], sv: pp[f'{op}/{sv}'][j]})]
-    etpls = {'EA': [['co', {}]], 'ED': [['lo', {}]]}
-    for c in case['conns']:
+    etpls = {}
+    for ci, c in enumerate(case['conns']):
         s, t = c['src'], c['tgt']
         sop, ssv = POPOP[s][0], POPOP[s][1]
         top, tsv, tiv = POPOP[t][0], POPOP[t][1], POPOP[t][2]
@@ -139,10 +149,12 @@ def reference(case):
                 a = {'weight': w}
                 tpl = None
                 if c.get('edge') == 'alg':
-                    tpl = 'EA'
-                    a.update({'EA/co/x_pre': 'source', 'EA/co/x_post': f'{t}_{i}/{top}/{tsv}'})
+                    tpl = f'EA{ci}'
+                    etpls[tpl] = [['co', dict(c.get('edge_vals') or {})]]
+                    a.update({f'{tpl}/co/x_pre': 'source', f'{tpl}/co/x_post': f'{t}_{i}/{top}/{tsv}'})
                 elif c.get('edge') == 'dyn':
-                    tpl = 'ED'
+                    tpl = f'ED{ci}'
+                    etpls[tpl] = [['lo', dict(c.get('edge_vals') or {})]]
                 if c.get('delay') and not c.get('spread'):
                     a['delay'] = c['delay']
                 edges.append((f'{s}_{j}/{sop}/{ssv}', f'{t}_{i}/{top}/{tiv}', tpl, a))
@@ -163,11 +175,13 @@ def build_pop(case):
     for c in case['conns']:
         s, t = c['src'], c['tgt']
         kw = {}
+        ev = c.get('edge_vals')
         if c.get('edge') == 'alg':
-            kw = {'edge': EdgeTemplate('EA', operators=[ops['co']]),
+            kw = {'edge': EdgeTemplate('EA', operators={ops['co']: dict(ev)} if ev else [ops['co']]),
                   'edge_var_map': {'x_pre': 'source', 'x_post': f'{t}/{POPOP[t][0]}/{POPOP[t][1]}'}}
         elif c.get('edge') == 'dyn':
-            kw = {'edge': EdgeTemplate('ED', operators=[ops['lo']]), 'edge_var_map': {'r_pre': 'source'}}
+            kw = {'edge': EdgeTemplate('ED', operators={ops['lo']: dict(ev)} if ev else [ops['lo']]),
+                  'edge_var_map': {'r_pre': 'source'}}
         if c.get('delay'):
             kw['delays'] = c['delay']
         if c.get('spread'):
